@@ -555,10 +555,6 @@ def check_seg(case, acc, record=True):
                 r = RecordingPen()
                 rp.replay(pointPen.PointToSegmentPen(r, outputImpliedClosingLine=oicl))
                 compare(acc, "Segment->Point->Segment", case, canon_of(r.value), A, tol)
-            if guess != fl["guess"]:
-                break
-            # only one guessSmooth variant gets the full treatment per case; the other
-            # is checked at the point level only (smooth flags do not carry geometry)
 
     guarded(acc, "Segment->Point->Segment", case, seg_point_seg)
 
@@ -1018,8 +1014,18 @@ def check_pt(case, acc, record=True):
             r = RecordingPen()
             gp.replay_items(items, pointPen.PointToSegmentPen(r, outputImpliedClosingLine=oicl))
             compare(acc, "PointToSegmentPen", case, canon_ops(r.value), A, tol)
-            # documented: a closed contour is started at its first on-curve point... the
-            # moveTo goes to the last point of the last segment == the first on-curve point
+            # documented (BasePointToSegmentPen.endPath/_flushContour): the point list of a closed
+            # contour is rotated to end with its first on-curve point, which gets the moveTo
+            parts = _split_with_components([(o, tuple(a)) for o, a in r.value])
+            if len(parts) == len(items):
+                for it, part in zip(items, parts):
+                    if "c" in it and len(it["c"]) > 1 and it["c"][0][2] != "move":
+                        on = [p for p in it["c"] if p[2] is not None]
+                        if on and (part[0][0] != "moveTo" or part[0][1][0] != (on[0][0], on[0][1])):
+                            _fail(acc, "PointToSegmentPen", "closed-contour-not-started-at-first-on-curve", "%r -> %r" % (it["c"][:4], part[:2]), case)
+                            break
+            else:
+                _fail(acc, "PointToSegmentPen", "contour-count", "%d items -> %d contours/components" % (len(items), len(parts)), case)
             if not oicl:
                 rp = RecordingPointPen()
                 gp.replay_ops(r.value, pointPen.SegmentToPointPen(rp, guessSmooth=fl["guess"]))
